@@ -2,14 +2,15 @@
 # verify_seed.sh <worktree> : confirm a seeded change (patch.diff + seed_demo_test.go) myself
 #  1. suite passes with the change  2. demo fails with it  3. demo passes without it
 export GOFLAGS=-mod=mod GOPROXY=off GOSUMDB=off GOTOOLCHAIN=local
+mkdir -p /tmp/seedlogs
 W=$1; cd "$W" || exit 2
 demo=$(git ls-files --others --exclude-standard | grep 'seed_demo_test.go' | head -1)
 pkg=./$(dirname "$demo")
 git checkout -q -- . ; git apply patch.diff || { echo "patch does not apply"; exit 2; }
 go build ./... || { echo "BUILD FAILS"; exit 1; }
-if go test -vet=off -count=1 ./... -skip TestSeedDemo >/tmp/seedlogs/suite.log 2>&1; then echo "suite-with-change: PASS"; else echo "suite-with-change: FAIL"; tail -20 /tmp/seed/suite.log; fi
+if go test -vet=off -count=1 ./... -skip TestSeedDemo >/tmp/seedlogs/suite.log 2>&1; then echo "suite-with-change: PASS"; else echo "suite-with-change: FAIL"; tail -20 /tmp/seedlogs/suite.log; fi
 if go test -vet=off -count=1 -run 'TestSeedDemo$' $pkg >/tmp/seedlogs/demo1.log 2>&1; then echo "demo-with-change: PASS (bad)"; else echo "demo-with-change: FAIL (good)"; fi
 git apply -R patch.diff
-if go test -vet=off -count=1 -run 'TestSeedDemo$' $pkg >/tmp/seedlogs/demo2.log 2>&1; then echo "demo-without-change: PASS (good)"; else echo "demo-without-change: FAIL (bad)"; tail -5 /tmp/seed/demo2.log; fi
+if go test -vet=off -count=1 -run 'TestSeedDemo$' $pkg >/tmp/seedlogs/demo2.log 2>&1; then echo "demo-without-change: PASS (good)"; else echo "demo-without-change: FAIL (bad)"; tail -5 /tmp/seedlogs/demo2.log; fi
 git apply patch.diff
 echo "demo=$demo"
